@@ -114,7 +114,7 @@ def run_gating(rep, crate, cfg):
     std = "feature=std" in crate.d["cfg"]
     if std:
         rep.floor(R, nk, 11, "calls of #[target_feature] kernels from dispatchers", cfg)
-        rep.floor(R, n, 120, "calls of functions that require CPU features (kernels and core::arch intrinsics)", cfg)
+        rep.floor(R, n, 90, "calls of functions that require CPU features (kernels and core::arch intrinsics)", cfg)
     rep.analysed["implied_feature_table"] = implied_table()[1]
     return n
 
@@ -231,6 +231,7 @@ def tile(an, q, segs, total):
 def run_cover(rep, crate, cfg, all_logs):
     R = "C11-R2"
     nk = 0
+    aligned = [0]
     for fnk, (kind, logs) in sorted(all_logs.items()):
         short = fnk.split("::")[-1]
         nk += 1
@@ -288,6 +289,33 @@ def run_cover(rep, crate, cfg, all_logs):
                 for oid, rs in segs_r_by_obj.items():
                     for p in contiguous(an, q, rs):
                         bad.setdefault("packed source: " + p, []).append(r)
+                # bit alignment of the packed operand: destination byte p corresponds to bit (padding + p) of the packed
+                # words, padding = (64 - len % 64) % 64.  For a loop that writes kw bytes at D0 + kw*a and reads the packed
+                # source at S0 + kr*a (same loop variable a):  kw = 8*kr  and  8*S0 - D0 = padding.
+                padding = (64 - r) % 64
+                packed = {v for k_, v in objs.items() if k_.endswith(".elements")}
+                wr = [e for e in L["log"] if e["fn"] == fnk and e["obj"] == dest and e["write"]]
+                rd = [e for e in L["log"] if e["fn"] == fnk and e["obj"] in packed and not e["write"]]
+                for ew in wr:
+                    exw = ew["off"].exact() if ew["off"].slo is not None else None
+                    if exw is None:
+                        continue
+                    la_w = [(a, k_) for a, k_ in exw.t if a in an.loop_atom_info]
+                    if len(la_w) != 1:
+                        continue
+                    for er in rd:
+                        exr = er["off"].exact() if er["off"].slo is not None else None
+                        if exr is None:
+                            continue
+                        la_r = [(a, k_) for a, k_ in exr.t if a in an.loop_atom_info]
+                        if len(la_r) != 1 or la_r[0][0] != la_w[0][0]:
+                            continue
+                        aligned[0] += 1
+                        kw, kr = la_w[0][1], la_r[0][1]
+                        diff = exr.scale(8) - exw
+                        if kw != 8 * kr or not diff.is_const() or diff.c != padding:
+                            bad.setdefault("packed source: the word read in the loop at %s is not the one holding the bits of the bytes "
+                                           "written there (8*source offset - destination offset = %r, padding bits = %d)" % (er["site"], diff, padding), []).append(r)
         rep.check(not bad, R, fnk, "exact-cover", crate.fns[fnk].loc(),
                   "%s: for every residue r of len = 64q + r the vector loop, the word loop and the scalar tail write each byte of "
                   "[0, len) exactly once (stride = access width, segments adjacent)%s" % (
@@ -295,6 +323,8 @@ def run_cover(rep, crate, cfg, all_logs):
                   {"problems": {k: v[:6] for k, v in list(bad.items())[:5]}}, cfg)
     std = "feature=std" in crate.d["cfg"]
     rep.floor(R, nk, 14 if std else 3, "kernels with a coverage proof", cfg)
+    if std and "target_arch=x86_64" in " ".join(crate.d["cfg"]).replace('"', ""):
+        rep.floor(R, aligned[0], 120, "packed-word / destination alignment pairs checked (binary kernels, all residues)", cfg)
 
 
 def an_obj(an, L, oid):
